@@ -184,6 +184,7 @@ def searchParallel (c : Cfg) (ran : List Item) (st : St) : St × RunRes :=
   let (st, _) := parSearchLoop c ran st
   if st.brokenPipe then (st, .errPipe) else
   let st := if c.implicitPath && !st.searched then errMessage c st .nothingSearched else st
+  -- `let _ = print_stats(.., &mut args.stdout()); let _ = wtr.flush();`: whatever happens to the trailer is discarded
   (st, .ok st.matched)
 
 /-! ### `files` (single-threaded) -/
